@@ -124,7 +124,7 @@ fn check_detect(ctx: &mut Ctx, line: &str) {
     }
     let real = match real_detect(line) {
         Ok(r) => r,
-        Err(p) => {
+        Err(_) => {
             ctx.violation("C15:detect:panic", format!("detect_from panicked on line {line:?}"), json!({"kind": "detect", "line": line}));
             return;
         }
